@@ -182,6 +182,16 @@ def _tridonic(run, repo, world, folder):
     from ..drv import expand_method
     bfn = expand_method(world, c, bfn, aliases="params")
     from .. import astq
+    if any(isinstance(n, ast.Attribute) and n.attr == "get"
+           for n in ast.walk(bfn)):
+        # report type -> width through a constant table: the if-chain
+        from ..unroll import expand_table_lookups, class_table_resolver
+        from ..inline import acopy as _ac
+        bfx = _ac(bfn)
+        rt_, nn_ = class_table_resolver(world, c, HID)
+        if expand_table_lookups(bfx, rt_, nn_):
+            ast.fix_missing_locations(bfx)
+            bfn = bfx
     ctors = set()
     datas = set()
     for c_ in astq.calls(bfn):
@@ -378,6 +388,9 @@ def _luba(run, repo, world, folder):
     # receive side: event payload -> frames
     o, efn = _m(world, P, "_process_luba_event")
     from .. import astq
+    from ..unroll import fold_int_class_attrs
+    # offsets named by int class constants (`self.HEADER_LEN`) read as numbers
+    efn = fold_int_class_attrs(efn, folder, world.cls(P))
     rd = efn.args.args[1].arg
     puts = [c_ for c_ in astq.calls_to(efn, "put_nowait")
             if unparse(c_.func.value) == "self._queue_rx_raw_dali"]
@@ -487,6 +500,9 @@ def _sci(run, repo, world, folder):
     # receive side dispatch: code -> byte span
     o, pfn = _m(world, P, "_process_byte")
     from .. import astq
+    from ..drv import expand_method
+    # helpers of the receiver (a status decoder moved out) read in place
+    pfn = expand_method(world, world.cls(P), pfn, aliases="params")
     spans = {astq.canon(pfn, c_.args[0]) for c_ in astq.calls_to(
         pfn, "_process_dali_frame") if c_.args}
     code = any(isinstance(n, ast.BinOp) and isinstance(n.op, ast.BitAnd)
@@ -1114,7 +1130,14 @@ def _guard_of(test, var_lin, var):
 
 
 def _steps_generator(fn):
-    """while True: yield i; i += 1; if i > K: i = C   (hid.tridonic._seqnum)"""
+    """while True: yield i; <straight-line / branching update of i>
+    (hid.tridonic._seqnum): the update is executed symbolically - one step
+    per path through its if / else (conditional expressions written out),
+    guard and next value linear in the value that was yielded."""
+    from ..normal import _lift
+    from ..inline import acopy
+    fn = _lift(acopy(fn), values=True)
+    ast.fix_missing_locations(fn)
     var = fn.args.args[0].arg
     loop = [s for s in fn.body if isinstance(s, ast.While)]
     if len(loop) != 1:
@@ -1124,49 +1147,68 @@ def _steps_generator(fn):
             body[0].value, ast.Yield) and unparse(body[0].value.value) ==
             var):
         return None
-    cur = Lin(1, 0)
-    steps = [{"guard": [], "ret": Lin(1, 0), "next": cur}]
-    for s in body[1:]:
-        if isinstance(s, ast.AugAssign) and unparse(s.target) == var and \
-                isinstance(s.op, ast.Add) and isinstance(
-                    s.value, ast.Constant):
-            for st in steps:
-                st["next"] = Lin(st["next"].a, st["next"].b + s.value.value) \
-                    if st["next"].a in (0, 1) else st["next"]
-        elif isinstance(s, ast.Assign) and unparse(s.targets[0]) == var:
-            lin = _lin_of(s.value, var)
-            if lin is None:
-                return None
-            for st in steps:
-                if lin.a == "mask":
-                    m = Lin("mask", st["next"].b + lin.b)
-                    m.m = lin.m
-                    st["next"] = m
-                elif lin.a == 0:
-                    st["next"] = lin
-                else:
-                    st["next"] = Lin(st["next"].a, st["next"].b + lin.b)
-        elif isinstance(s, ast.If) and len(s.body) == 1 and not s.orelse \
-                and isinstance(s.body[0], ast.Assign) and unparse(
-                    s.body[0].targets[0]) == var:
-            new = []
-            for st in steps:
-                if st["next"].a != 1:
-                    return None
-                g = _guard_of(s.test, (var, st["next"]), var)
-                if g is None:
-                    return None
-                lin = _lin_of(s.body[0].value, var)
-                if lin is None or lin.a != 0:
-                    return None
-                new.append({"guard": st["guard"] + g[0], "ret": st["ret"],
-                            "next": lin})
-                new.append({"guard": st["guard"] + g[1], "ret": st["ret"],
-                            "next": st["next"]})
-            steps = new
+
+    def assign(st, value):
+        lin = _lin_of(value, var)
+        if lin is None:
+            return False
+        if lin.a == "mask":
+            if st["next"].a != 1:
+                return False
+            m = Lin("mask", st["next"].b + lin.b)
+            m.m = lin.m
+            st["next"] = m
+        elif lin.a == 0:
+            st["next"] = lin
+        elif st["next"].a in (0, 1):
+            st["next"] = Lin(st["next"].a, st["next"].b + lin.b)
         else:
-            return None
-    return steps
+            return False
+        return True
+
+    def run_block(stmts, steps):
+        for s in stmts:
+            if steps is None:
+                return None
+            if isinstance(s, ast.Pass) or (isinstance(s, ast.Expr) and
+                                           isinstance(s.value, ast.Constant)):
+                continue
+            if isinstance(s, ast.AugAssign) and unparse(s.target) == var \
+                    and isinstance(s.op, (ast.Add, ast.Sub)) and isinstance(
+                        s.value, ast.Constant):
+                k = s.value.value if isinstance(s.op, ast.Add) else \
+                    -s.value.value
+                for st in steps:
+                    if st["next"].a not in (0, 1):
+                        return None
+                    st["next"] = Lin(st["next"].a, st["next"].b + k)
+            elif isinstance(s, ast.Assign) and len(s.targets) == 1 and \
+                    unparse(s.targets[0]) == var:
+                for st in steps:
+                    if not assign(st, s.value):
+                        return None
+            elif isinstance(s, ast.If):
+                tsteps, fsteps = [], []
+                for st in steps:
+                    if st["next"].a != 1:
+                        return None
+                    g = _guard_of(s.test, (var, st["next"]), var)
+                    if g is None:
+                        return None
+                    tsteps.append({"guard": st["guard"] + g[0],
+                                   "ret": st["ret"], "next": st["next"]})
+                    fsteps.append({"guard": st["guard"] + g[1],
+                                   "ret": st["ret"], "next": st["next"]})
+                t_ = run_block(s.body, tsteps)
+                f_ = run_block(s.orelse, fsteps)
+                if t_ is None or f_ is None:
+                    return None
+                steps = t_ + f_
+            else:
+                return None
+        return steps
+    return run_block(body[1:], [{"guard": [], "ret": Lin(1, 0),
+                                 "next": Lin(1, 0)}])
 
 
 def _steps_method(fn, attr):
